@@ -83,4 +83,25 @@ def C01_session_fec_full : Prop :=
         (fsrun C ⟨{ x := xA }, { x := xB }⟩ ops).A.wire.length < 2 ^ 31 →
         (fsrun C ⟨{ x := xA }, { x := xB }⟩ ops).B.rd <+: (fsrun C ⟨{ x := xA }, { x := xB }⟩ ops).A.wr
 
+/-! ### non-vacuity: recovery through parity in the model (executable GF(2^8) code) -/
+
+/-- two default sessions with FEC 2/1; `A` writes two messages (two data packets and, the gap being
+small, one parity packet); the network NEVER delivers the first data packet: `B` gets the second data
+packet and the parity packet, reconstructs the first, and reads both messages -/
+def C01_exFec : List FSOp :=
+  [.a (.noDelay 1 10 2 1), .a (.write [[1, 2, 3]] 0 1000000), .a (.write [[4, 5]] 0 3),
+   .dlv 1 5 0, .b (.read 100), .dlv 2 6 0, .b (.read 100), .b (.read 100)]
+
+set_option maxRecDepth 1000000 in
+example :
+    Fresh (SessFec.new rsNew 7 2 1).s.k ∧ (SessFec.new rsNew 7 2 1).dec = Decoder.new rsNew 2 1 ∧
+    (fsrun rsNew ⟨{ x := SessFec.new rsNew 7 2 1 }, { x := SessFec.new rsNew 7 2 1 }⟩ C01_exFec).A.wire.map Fec.flag
+      = [typeData, typeData, typeParity] ∧
+    (fsrun rsNew ⟨{ x := SessFec.new rsNew 7 2 1 }, { x := SessFec.new rsNew 7 2 1 }⟩ C01_exFec).B.recvd.length = 2 ∧
+    (fsrun rsNew ⟨{ x := SessFec.new rsNew 7 2 1 }, { x := SessFec.new rsNew 7 2 1 }⟩ C01_exFec).A.wr = [1, 2, 3, 4, 5] ∧
+    (fsrun rsNew ⟨{ x := SessFec.new rsNew 7 2 1 }, { x := SessFec.new rsNew 7 2 1 }⟩ C01_exFec).B.rd = [1, 2, 3, 4, 5] ∧
+    (fsrun rsNew ⟨{ x := SessFec.new rsNew 7 2 1 }, { x := SessFec.new rsNew 7 2 1 }⟩ C01_exFec).B.dead = false := by
+  refine ⟨⟨by decide, by decide, by decide, by decide, by decide⟩, rfl, by decide, by decide, by decide,
+    by decide, by decide⟩
+
 end KcpVerif.Props
